@@ -210,7 +210,10 @@ func (c *MapCodec) readMapEntry(mp, k unsafe.Pointer, data []byte) (int, error) 
 	// the value should be. We're going to unmarshal into this directly
 	val := mapassign(unpackEFace(c.rtype).data, mp, k)
 
-	if offset < len(data) {
+	// The value is present if there is data after the key, or if the first field
+	// in the entry was not the key: then its tag is the one we have already read,
+	// even when its payload is empty (e.g. a pointer to an empty string).
+	if offset < len(data) || (index != 1 && len(data) > 0) {
 		if index == 1 {
 			offset, fieldEnd, _, wt, err = c.readTagAndLength(data, offset)
 			if err != nil {
